@@ -88,6 +88,7 @@ def run(chk):
             for x in chain[1:]:
                 verified[x] = (bb, checked)
         n_targets = 0
+        wrappers = {}
         for bi, si, s in cfgq.agg_sites(b, VARIANT):
             if "assignment::Target" not in b.local_ty(s["d"]["l"]):
                 continue
@@ -101,6 +102,16 @@ def run(chk):
                 hit = [verified[x] for x in chain if x in verified]
                 d = {"fn": ASSIGN_NEW, "variant": s["rv"].get("variant"), "field": name, "at": "%s:%s" % (b.file, s.get("ln")),
                      "verify_mutable_dominates": bool(hit) and b.dominates(hit[0][0], bi), "result_checked": bool(hit) and hit[0][1]}
+                if not hit and l is not None:
+                    # the target may come out of a helper that verifies it on every Ok path (a verifying wrapper): summarise the helper
+                    oc = origin_call(b, l)
+                    if oc is not None:
+                        if oc not in wrappers:
+                            wrappers[oc] = verifying_wrapper(facts, oc)
+                        d["produced_by"] = oc
+                        d["producer_verifies_on_every_ok_path"] = wrappers[oc]
+                        if wrappers[oc]:
+                            d["verify_mutable_dominates"] = d["result_checked"] = True
                 ok = d["verify_mutable_dominates"] and d["result_checked"]
                 chk.instance(rid, d, ok=ok)
                 if not ok:
@@ -288,3 +299,60 @@ def config_rules(chk):
             chk.violation(rid, b.file, IS_RO, "clause `%s` missing" % cname,
                           "is_read_only_path no longer reports a path read-only through its %s clause: assignments the configuration forbids are accepted" % cname,
                           detail=d)
+
+
+def origin_call(b, l, depth=4):
+    """the local function whose (`?`-unwrapped) result the value in `l` is, or None"""
+    for _ in range(depth):
+        chain = cfgq.ref_chain(b, l)
+        d = cfgq.single_def(b, chain[-1])
+        if d is None or d[0] != "call":
+            return None
+        t = d[3]
+        cal = b.callee(t)
+        if cal.endswith("as std::ops::Try>::branch"):
+            l = op_local(t["args"][0])
+            if l is None:
+                return None
+            continue
+        return cal
+    return None
+
+
+def verifying_wrapper(facts, name):
+    """True iff `name` is a local function returning Result<assignment::Target, _> in which every `Ok(target)` it returns is dominated by a
+    `?`-checked verify_mutable(&target, ..) call (Min et al.: a wrapper acquires the guarantee when all its success paths hold it)."""
+    import facts as F
+    if not facts.has(name):
+        return False
+    wb = facts.body(name)
+    if "assignment::Target" not in wb.local_ty(0) or "Result<" not in wb.local_ty(0):
+        return False
+    verified = {}
+    for bb, t in cfgq.calls_to(wb, lambda c: c == VERIFY_MUTABLE):
+        l = op_local(t["args"][0])
+        res = t["dest"]["l"]
+        checked = any(u[0] == "call" and wb.callee(u[3]).endswith("as std::ops::Try>::branch") for u in F.uses_of(wb, res))
+        if l is None or not checked:
+            continue
+        for x in cfgq.ref_chain(wb, l)[1:]:
+            verified.setdefault(x, []).append(bb)
+    oks = [(bi, s) for bi, si, s in cfgq.agg_sites(wb, "std::result::Result", "Ok") if s["d"]["l"] == 0 and not s["d"].get("p")]
+    if not oks:
+        return False
+    for bi, s in oks:
+        l = op_local(s["rv"]["ops"][0])
+        if l is None:
+            return False
+        chain = cfgq.ref_chain(wb, l)
+        if not any(any(wb.dominates(vbb, bi) for vbb in verified.get(x, [])) for x in chain):
+            return False
+    # no other way to produce the return value (e.g. forwarding another call's Result unchanged)
+    for kind, bb, si, x in wb.defs().get(0, []):
+        if kind == "call":
+            cal = wb.callee(x)
+            if not cal.endswith("FromResidual<std::result::Result<std::convert::Infallible, E>>>::from_residual") and "from_residual" not in cal:
+                return False
+        elif kind == "stmt" and x["rv"]["k"] != "agg":
+            return False
+    return True
